@@ -182,6 +182,18 @@ def run_check(pid, tier, seed, replay=None):
             if unexpected:
                 ties_broken.append(("assumptions", "unexpected axioms: %s" % unexpected))
 
+    # 1b. thorough tier: independent re-check of the property's .vo closure with coqchk (lists the axioms it relies on)
+    coqchk_report = None
+    if tier == "thorough" and proofs_ok and os.environ.get("VERIF_NO_COQCHK") != "1":
+        rc, out = vlib.sh(["timeout", "3000", "coqchk", "-silent", "-o", "-Q", "theories", "MTX", "-Q", "gen", "MTXGen",
+                           "MTX.Props." + pid], cwd=vlib.COQ, timeout=3100)
+        tail = out[-1500:]
+        coqchk_report = {"rc": rc, "summary": " ".join(tail.split())[-900:]}
+        if rc != 0:
+            ties_broken.append(("coqchk", tail))
+        elif "* Axioms: <none>" not in out and not prop.allowed_axioms:
+            ties_broken.append(("coqchk", "coqchk reports axioms: " + tail))
+
     # 2. correspondence run
     n = prop.n_cases(tier)
     cases, summaries, derrs = [], [], []
@@ -285,6 +297,7 @@ def run_check(pid, tier, seed, replay=None):
         "known_findings_reported": known_lines,
         "translator_notes": gen_notes,
         "ties_broken": [k for k, _ in ties_broken],
+        "coqchk": coqchk_report,
         "exhaustive": False,
     }
     if not proofs_ok:
